@@ -130,7 +130,10 @@ func InteropCorpus(variant int) *ir.Request {
 		Methods: []*ir.Method{
 			{Name: "Patch", Input: P + "PatchReq", Output: P + "Reply", Config: &ir.HTTPConfig{Path: "/p/{name}", Method: "PATCH"},
 				Headers: []ir.Header{{Name: "X-Flag", Type: "boolean", Required: true}}},
-			{Name: "Ping", Input: P + "PingReq", Output: P + "Reply", Config: &ir.HTTPConfig{Path: "/ping", Method: "GET"}},
+			// header names whose part after an optional "X-" itself starts with X or '-': helper / option
+			// names must come from stripping the literal prefix once, not a character set
+			{Name: "Ping", Input: P + "PingReq", Output: P + "Reply", Config: &ir.HTTPConfig{Path: "/ping", Method: "GET"},
+				Headers: []ir.Header{{Name: "X-XSRF-Token", Type: "string", Required: true}, {Name: "XSS-Mode", Type: "string", Required: true}, {Name: "X-X-Trace", Type: "string"}}},
 			{Name: "Echo", Input: P + "EchoReq", Output: P + "Reply", Config: &ir.HTTPConfig{Path: "/echo/{name}", Method: "POST"}},
 		}}
 	f.Services = []*ir.Service{shop, aux}
